@@ -166,7 +166,9 @@ class UCCGD(Ansatz):
         qubit_op = self._get_qubit_operator()
         qu_op_dict = qubit_op.terms
 
-        if set(qu_op_dict) != set(self.qu_op_dict):
+        # Rebuild if the Pauli words or their order changed: the Trotterized circuit depends on the term order, which follows
+        # from the set of non-zero parameters
+        if list(qu_op_dict) != list(self.qu_op_dict):
             self.build_circuit(var_params)
         else:
             for i, (term, _) in enumerate(self.pauli_order):
